@@ -53,6 +53,8 @@ pub fn main(args: &[String]) -> i32 {
     let sk_o = SecretKey::generate(ctx.elgamal_generator(), &mut rng0);
     let pk_o = PublicKey::from(&sk_o);
     let table = BabyStepGiantStep::new(ctx.encryption_in_exponent_generator(), 1 << 16);
+    // a table whose size is not a power of two decrypts the same values
+    let table_odd = BabyStepGiantStep::new(ctx.encryption_in_exponent_generator(), 60_000);
     drive(args, "c12-replay", |v, stats| {
         let w = v["w"].as_u64().unwrap();
         let mut rng = StdRng::seed_from_u64(v["idx"].as_u64().unwrap_or(0) + 1000);
@@ -78,6 +80,10 @@ pub fn main(args: &[String]) -> i32 {
                 if d != a {
                     return fail(here("decrypt(encrypt(a)) = a"), json!(a), json!(d));
                 }
+                let d2 = decrypt_amount(&table_odd, &sk, &e).micro_ccd();
+                if d2 != a {
+                    return fail(here("decrypt(encrypt(a)) = a with a decryption table of 60000 entries"), json!(a), json!(d2));
+                }
                 enc = aggregate(&enc, &e);
                 plain += a as u128;
                 lo += (a & 0xffff_ffff) as u128;
@@ -95,6 +101,11 @@ pub fn main(args: &[String]) -> i32 {
                     }
                     if lo_d + (hi_d << 32) != plain {
                         return fail(here("aggregate denotes the sum"), json!(plain.to_string()), json!((lo_d + (hi_d << 32)).to_string()));
+                    }
+                    // decrypt_amount recombines the chunks itself: the carry of the low chunk sum must reach the high part
+                    let whole = decrypt_amount(&table, &sk, &enc).micro_ccd() as u128;
+                    if whole != plain {
+                        return fail(here("decrypt_amount of the aggregate is the sum of the deposits"), json!(plain.to_string()), json!(whole.to_string()));
                     }
                 }
                 continue;
@@ -151,6 +162,21 @@ pub fn main(args: &[String]) -> i32 {
                             let mut b = to_bytes(&d2.proof);
                             let k = b.len() / 2;
                             b[k] ^= 1;
+                            match reparse(&b) {
+                                Some(p) => d2.proof = p,
+                                None => continue,
+                            }
+                        }
+                        "proof_surplus_response" => {
+                            // the accounting proof is challenge (32) ++ common response (32) ++ u32 count ++ responses (64 each) ++ u32 count ++ responses;
+                            // one more response for the remaining amount than there are chunks must not go unnoticed
+                            let mut b = to_bytes(&d2.proof);
+                            if b[64..68] != [0, 0, 0, 2] || b[196..200] != [0, 0, 0, 2] {
+                                return fail("harness: unexpected layout of the accounting proof".into(), J::Null, J::Null);
+                            }
+                            b[199] = 3;
+                            let extra = b[200..264].to_vec();
+                            b.splice(328..328, extra);
                             match reparse(&b) {
                                 Some(p) => d2.proof = p,
                                 None => continue,
